@@ -58,6 +58,18 @@ def _worker(args):
         if nd:
             eng.vc_dump, eng.vc_dump_max = [], nd
         ctx = Ctx(eng, cfg, tier, seed, excl)
+        entered = set()
+        srcp = os.path.realpath(replay_mod.src_dir()) + os.sep
+
+        def prof(frame, event, arg):
+            # which catii functions the symbolic run enters (first two paths of the configuration)
+            if event == "call":
+                fn = frame.f_code.co_filename
+                if fn.startswith(srcp):
+                    entered.add(fn[len(srcp):] + ":" + frame.f_code.co_qualname)
+                if eng.paths + eng.aborted >= 2:
+                    sys.setprofile(None)
+        sys.setprofile(prof)
         try:
             H.explore(cfg, eng, ctx)
         except Violation as v:
@@ -65,6 +77,8 @@ def _worker(args):
             res["violation"] = dict(kind=v.kind, case=case)
         except Inconclusive as ex:
             res["inconclusive"] = str(ex)
+        sys.setprofile(None)
+        res["entered"] = sorted(entered)
         res["stats"] = eng.stats()
         res["samples"] = ctx.samples
         res["path_samples"] = ctx.path_samples
@@ -75,6 +89,7 @@ def _worker(args):
     except BaseException as ex:      # harness error: never a verdict
         res["error"] = "%s: %s\n%s" % (type(ex).__name__, ex, traceback.format_exc()[-3000:])
     finally:
+        sys.setprofile(None)
         CUR.E = None
     res["wall_s"] = round(time.time() - t0, 3)
     return res
@@ -160,6 +175,9 @@ class BuildThread(threading.Thread):
         return self.b
 
 
+FAILFAST_AFTER = 4
+
+
 def run_check(pid, tier, seed):
     t0 = time.time()
     H = importlib.import_module("harness." + pid)
@@ -174,11 +192,31 @@ def run_check(pid, tier, seed):
     work = [(pid, c, tier, seed, excl) for c in cfgs]
     nproc = max(1, min(NPROC, len(work)))
     ctx = multiprocessing.get_context("fork")
+    stopped_early = None
     with ctx.Pool(nproc, maxtasksperchild=getattr(H, "TASKS_PER_CHILD", 8)) as pool:
+        nviol = 0
+        next_probe = FAILFAST_AFTER
         for r in pool.imap_unordered(_worker, work, chunksize=1):
             results.append(r)
             if r["error"]:
                 errors.append(r)
+            if r["violation"]:
+                nviol += 1
+                # fail fast: once several candidates exist, replay them now; a reproduced violation already
+                # decides the exit code, so the rest of the exploration is abandoned (and reported as such)
+                if nviol >= next_probe and len(results) < len(work):
+                    next_probe = nviol + FAILFAST_AFTER
+                    try:
+                        b = bt.get()
+                        cand = [x["violation"]["case"] for x in results if x["violation"]][-FAILFAST_AFTER:]
+                        if any(o.get("violates") for o in b.run_cases(cand)):
+                            stopped_early = len(work) - len(results)
+                            pool.terminate()
+                            break
+                    except Exception:
+                        pass
+    if stopped_early:
+        print("NOTE: exploration stopped after reproduced violations; %d of %d configurations not explored" % (stopped_early, len(work)))
     exit_code = 0
     out_lines = []
     try:
@@ -306,6 +344,26 @@ def run_check(pid, tier, seed):
         funcs = H.functions()
     except Exception:
         pass
+    # --- anchored functions actually entered by the symbolic run (vacuity guard, reported only)
+    entered = set(x for r in results for x in r.get("entered", []))
+    anchors = {"entered": [], "not_entered": []}
+    try:
+        adb = json.load(open(os.path.join(HERE, "anchors.json")))["anchors"].get(pid, [])
+    except Exception:
+        adb = []
+    stubs_txt = " ".join(getattr(H, "STUBS", []))
+    for a in adb:
+        key = os.path.basename(a["file"]) + ":" + a["function"]
+        if key in entered:
+            anchors["entered"].append(key)
+        else:
+            why = "not entered on the sampled paths"
+            if a["file"].endswith(".pyx") and "summar" in stubs_txt:
+                why = "kernel replaced by its set-algebra summary (postcondition discharged by C08)"
+            anchors["not_entered"].append({"function": key, "reason": why})
+    for x in anchors["not_entered"]:
+        if x["reason"].startswith("not entered"):
+            print("NOTE: anchored function %s was %s" % (x["function"], x["reason"]))
     ev = {
         "property_id": pid, "tier": tier, "seed": seed,
         "level": getattr(H, "LEVEL", "model_checking"),
@@ -315,6 +373,7 @@ def run_check(pid, tier, seed):
             "samples": path_samples,
             "explanation": getattr(H, "EXPLANATION", "bounded symbolic execution of the real source; every path within the bounds, every VC decided by z3"),
             "functions": funcs,
+            "anchored_functions": anchors,
             "source_sha256": source_hashes(),
             "rewrites": getattr(H, "REWRITES", []),
             "stubs": getattr(H, "STUBS", []),
@@ -330,7 +389,8 @@ def run_check(pid, tier, seed):
             "known_findings_excluded": excl,
             "cross_checks": cross,
             "engine_mismatches": len(mismatches) + len(sample_fail),
-            "exhaustive": (not inconc and not errors and tot("vc_unknown") == 0),
+            "exhaustive": (not inconc and not errors and tot("vc_unknown") == 0 and not stopped_early),
+            "stopped_early_unexplored_configs": stopped_early or 0,
         },
         "assumptions": getattr(H, "ASSUMPTIONS", []),
         "wall_s": round(time.time() - t0, 2),
